@@ -32,7 +32,7 @@
 static m_queue_t *g_evq;
 #include "abs.contracts.h"
 #include "cb.contracts.h"
-#if defined(V_TELLSUBS_UNIT) || defined(V_FETCHSUB_UNIT) || defined(V_SUBSCRIBE_UNIT)
+#if defined(V_TELLSUBS_UNIT) || defined(V_FETCHSUB_UNIT) || defined(V_SUBSCRIBE_UNIT) || defined(V_ROUTE_UNIT)
 #include "subs.contracts.h"
 #else
 #include "ps.contracts.h"
@@ -94,7 +94,7 @@ void h_flush(void) {
 }
 #endif
 
-#if defined(V_TELLSUBS_UNIT) || defined(V_FETCHSUB_UNIT) || defined(V_SUBSCRIBE_UNIT)
+#if defined(V_TELLSUBS_UNIT) || defined(V_FETCHSUB_UNIT) || defined(V_SUBSCRIBE_UNIT) || defined(V_ROUTE_UNIT)
 static char g_topicbuf[2] = "t";
 static void build_subs(void) {
     build();
@@ -137,6 +137,39 @@ void h_subscribe(void) {
     int r = m_mod_ps_subscribe(g_mod, vin_alloc_fails ? NULL : g_topic, (m_src_flags)vin_sflags_new, &g_topicbuf[1]);
     V_COVER("sub-first", r == 0 && !g_mod->subscriptions == 0 && !(vin_has_sub & 1) && g.mapnew_calls == 1); V_COVER("sub-same-flags-in-place", r == 0 && (vin_has_sub & 1) && g.mapput_calls == 0);
     V_COVER("sub-other-flags-replaces-dup", r == 0 && (vin_has_sub & 1) && g.mapput_calls == 1 && (vin_sflags_old & M_SRC_DUP)); V_COVER("sub-bad-pattern", r == 2); V_COVER("sub-denied", r == -EPERM);
+    V_CANARY();
+}
+#endif
+
+#ifdef V_ROUTE_UNIT
+#ifdef V_PUBLISH_UNIT
+void h_publish(void) {
+    build_subs();
+    static int payload;
+    g_mctx = g_ctx; g_ctx->modules = (m_map_t *)g_tab; g_exact = vin_has_key & 1; V_ASSUME(vin_sent_msgs < UINT64_MAX);
+    int r = m_mod_ps_publish(g_mod, vin_has_topic ? g_topic : NULL, vin_alloc_fails ? NULL : &payload, 0);
+    V_COVER("publish-topic", r == 0 && vin_has_topic && g.tellsubs_calls == 1); V_COVER("publish-broadcast", r == 0 && !vin_has_topic && g.iterate_calls == 1); V_COVER("publish-reserved", r == -EPERM && (vin_has_key & 1) && vin_has_topic && !(vin_mflags & M_MOD_DENY_PUB));
+    V_COVER("publish-no-message", r == -EINVAL);
+    V_CANARY();
+}
+#endif
+#ifdef V_TELL_UNIT
+void h_tell(void) {
+    build_subs();
+    static int payload; static m_mod_t rcp; static m_ctx_t other;
+    g_mctx = g_ctx; rcp.ctx = vin_has_key ? &other : g_ctx; rcp.state = M_MOD_RUNNING; V_ASSUME(vin_sent_msgs < UINT64_MAX);
+    int r = m_mod_ps_tell(g_mod, vin_has_topic ? NULL : &rcp, vin_alloc_fails ? NULL : &payload, 0);
+    V_COVER("tell-ok", r == 0 && g.tellif_calls == 1); V_COVER("tell-foreign-context", r == -EINVAL && vin_has_key && !vin_has_topic && !(vin_state & M_MOD_ZOMBIE) && vin_mctx_kind == 0); V_COVER("tell-no-recipient", r == -EINVAL && vin_has_topic);
+    V_CANARY();
+}
+#endif
+void h_tell_system(void) {
+    build_subs();
+    static m_mod_t rcp; rcp.ctx = g_ctx; rcp.state = M_MOD_RUNNING;
+    g_ctx->modules = (m_map_t *)g_tab; V_ASSUME(vin_sent_msgs < UINT64_MAX);
+    int r = tell_system_pubsub_msg(vin_has_key ? &rcp : NULL, g_ctx, vin_has_sub ? g_mod : NULL, g_topic);
+    V_COVER("system-broadcast-nobody-running", r == 0 && !vin_has_key && vin_running == 0 && g.tellsubs_calls == 1); V_COVER("system-direct", r == 0 && vin_has_key && g.tellif_calls == 1);
+    V_COVER("system-without-sender", r == 0 && !vin_has_sub);
     V_CANARY();
 }
 #endif
